@@ -5,8 +5,8 @@
    slots).  Specification: Box/BoxWf.v (wf, wf_root), Box/TableGridSpec.v,
    Box/MakeBoxSpec.v.  Check/C09.v ties the model to /repo on every run. *)
 From Verif Require Import Base.GoSem Box.BoxGen Box.TableGrid Box.TableGridSpec Box.TableGridProofs
-  Box.BoxWf Box.MakeBoxSpec Box.BoxInv Box.TableFixupProofs Box.FlexGridProofs Box.InlineInBlockProofs
-  Box.BlockInInlineProofs Box.BoxSim Box.BoxWfProofs.
+  Box.BoxWf Box.MakeBoxSpec Box.BoxInv Box.TableFixupProofs Box.TableFixupTotal Box.FlexGridProofs Box.InlineInBlockProofs
+  Box.BlockInInlineProofs Box.BlockInInlineTotal Box.BoxSim Box.BoxWfProofs Box.BoxTotal Box.ElementsProofs.
 From Coq Require Import ZArith List Bool.
 Import ListNotations.
 Open Scope Z_scope.
@@ -112,6 +112,24 @@ Theorem C09_table_fixup_wf : forall t t',
 Proof. exact atb_typed. Qed.
 Print Assumptions C09_table_fixup_wf.
 
+(* AnonymousTableBoxes is total: the recursion of tableBoxesChildren on the
+   wrappers it creates is bounded (5 levels, the model runs it with fuel 8),
+   wrapTable's byType[child.Type()] lookup only meets proper table children
+   (no nil dereference), the column-group type assertion holds, the grid
+   assignment neither panics nor loops *)
+Theorem C09_table_fixup_total : forall t,
+  tree iok t = true -> exists t', anonymous_table_boxes t = Ok t'.
+Proof. exact atb_total. Qed.
+Print Assumptions C09_table_fixup_total.
+
+Corollary C09_wrap_table_total : forall t,
+  tree iok t = true ->
+  (forall site, anonymous_table_boxes t <> Panic site) /\ anonymous_table_boxes t <> OutOfFuel.
+Proof.
+  intros t H. destruct (atb_total t H) as [t' E]. rewrite E. split; [intros site|]; discriminate.
+Qed.
+Print Assumptions C09_wrap_table_total.
+
 Theorem C09_flex_grid_items_blockified : forall t,
   tree (cok 1) t = true -> tree (cok 3) (grid_boxes (flex_boxes t)) = true.
 Proof. exact flex_grid_items_blockified. Qed.
@@ -122,20 +140,29 @@ Theorem C09_inline_in_block_wf : forall t t',
 Proof. exact iib_typed. Qed.
 Print Assumptions C09_inline_in_block_wf.
 
+(* InlineInBlock never meets a line box ("childBox can't be a LineBox") *)
+Theorem C09_inline_in_block_total : forall t,
+  tree (cok 3) t = true -> exists t', inline_in_block t = Ok t'.
+Proof. exact iib_total. Qed.
+Print Assumptions C09_inline_in_block_total.
+
 (* BlockInInline: for EVERY amount of fuel (no bound on nesting depth), a
-   returned tree has no in-flow block-level box inside an inline or line box.
-   What is not proved is that the fuel S (size t) given by create_anonymous
-   always suffices and that the explicit panics ("Should not skip here", the
-   slice box.Children[skip:]) are unreachable: *)
+   returned tree has no in-flow block-level box inside an inline or line box *)
 Theorem C09_block_in_inline_wf_partial : forall fuel t t',
   tree (cok 4) t = true -> ty t <> InlineT -> ty t <> LineT ->
   block_in_inline fuel t = Ok t' -> tree (cok 5) t' = true /\ sim t t'.
 Proof. exact bii_typed. Qed.
 Print Assumptions C09_block_in_inline_wf_partial.
 
-Definition C09_block_in_inline_wf_statement : Prop :=
-  forall t, tree (cok 4) t = true -> ty t <> InlineT -> ty t <> LineT ->
+(* ... and it terminates without panic: the resume stacks it builds are valid
+   positions ("Should not skip here" and box.Children[skip:] are unreachable),
+   each resumption is strictly further in the line, and the fuel S (size t)
+   given by create_anonymous suffices (Box/BlockInInlineTotal.v) *)
+Theorem C09_block_in_inline_wf : forall t,
+  tree (cok 4) t = true -> ty t <> InlineT -> ty t <> LineT ->
   exists t', block_in_inline (S (size t)) t = Ok t' /\ tree (cok 5) t' = true.
+Proof. exact block_in_inline_total_wf. Qed.
+Print Assumptions C09_block_in_inline_wf.
 
 Theorem C09_stage5_is_wf : forall t, tree (cok 5) t = true -> wf t = true.
 Proof. exact tree_cok5_wf. Qed.
@@ -155,10 +182,44 @@ Theorem C09_create_anonymous_wf_partial : forall t t',
 Proof. exact create_anonymous_wf_root. Qed.
 Print Assumptions C09_create_anonymous_wf_partial.
 
-(* full statement: also with running elements in the document, and totality
-   (no panic of wrapTable's byType lookup, of InlineInBlock, of BlockInInline;
-   enough fuel).  Checked on every run by Check/C09.v (code 5/6 = a crash on
-   one side only). *)
+(* the first four passes always succeed and deliver the stage-4 invariant *)
+Theorem C09_four_passes_total : forall t,
+  input_ok t = true ->
+  exists b1 b4, anonymous_table_boxes t = Ok b1 /\
+                inline_in_block (grid_boxes (flex_boxes b1)) = Ok b4 /\
+                tree (cok 4) b4 = true.
+Proof.
+  intros t Hin. destruct (atb_total t Hin) as [b1 H1].
+  destruct (atb_typed t b1 Hin H1) as [F1 _].
+  pose proof (flex_grid_items_blockified b1 (fixed_tree _ _ F1)) as T3.
+  destruct (iib_total _ T3) as [b4 H4].
+  exists b1, b4. split; [assumption|]. split; [assumption|]. apply (iib_typed _ b4 T3 H4).
+Qed.
+Print Assumptions C09_four_passes_total.
+
+(* CreateAnonymousBox, full statement for documents without running elements:
+   it always returns (no panic, no fuel exhaustion) and the tree it returns
+   is well formed *)
+Theorem C09_create_anonymous_wf : forall t,
+  input_ok t = true -> block_flow_t (result_ty (ty t)) = true ->
+  exists t', create_anonymous t = Ok t' /\ wf_root t' = true.
+Proof. exact create_anonymous_total_wf. Qed.
+Print Assumptions C09_create_anonymous_wf.
+
+(* The fix-up invents no element: anonymous boxes take the element of the box
+   they are created from, so if no box of the tree built by elementToBox
+   belongs to one of the `hidden` elements (the display:none subtrees, for which
+   elementToBox returns no box: build.go:203-206, C09_display_none_no_box) then
+   no box of the formatting structure does.  No hypothesis on the tree. *)
+Theorem C09_display_none_subtrees_generate_no_box : forall hidden t t',
+  no_box_for hidden t = true -> create_anonymous t = Ok t' -> no_box_for hidden t' = true.
+Proof. exact fixup_no_box_for. Qed.
+Print Assumptions C09_display_none_subtrees_generate_no_box.
+
+(* what remains a statement: the same with position:running() elements in the
+   document (the model and the tie handle them: running subtrees are skipped
+   by all passes; the proofs assume there is none).  Checked on every run by
+   Check/C09.v. *)
 Definition iok_running (b : box) : bool :=
   (0 <=? a_colspan (at_ b)) && (0 <=? a_rowspan (at_ b)) && mut_ok b && negb (is_wrap (mu b)) &&
   negb (is LineT b) && (parent_t (ty b) || no_kids (ch b)).
